@@ -4,6 +4,7 @@ import (
 	"fmt"
 	"net"
 	"runtime"
+	"strconv"
 	"strings"
 	"testing/synctest"
 	"time"
@@ -114,6 +115,17 @@ func genQueryName(c *Chooser, uid uint16, captured []string) (string, string) {
 	}
 	// command + cache chars only (no user id although the command needs one)
 	return string(letters[c.Pick(len(letters), "cmd")]) + "abc." + Domain + ".", "header-only"
+}
+
+// carriesUserId reports whether the tunnel would read identifier uid out of this query name (command
+// letter, three cache characters, two base-36 characters, case-insensitive, dots ignored).
+func carriesUserId(name string, uid uint16) bool {
+	flat := strings.Replace(name, ".", "", -1)
+	if len(flat) < 6 {
+		return false
+	}
+	u, err := strconv.ParseUint(flat[4:6], 36, 16)
+	return err == nil && uint16(u) == uid
 }
 
 // genAnswer rewrites a genuine answer into a hostile one (same id and question, so the client accepts it).
@@ -305,7 +317,12 @@ func scenarioC12(r *Run) {
 					return
 				}
 				from := net.Addr(foreign)
-				if c.Chance(1, 3, "from-session-address") {
+				if c.Chance(1, 3, "from-session-address") && !carriesUserId(name, uid) {
+					// From the session's own address only what cannot be mistaken for the client's own
+					// traffic: a well-formed request with the live identifier from the live address is, for
+					// the server, the client speaking (it may legitimately change options or carry data), so
+					// "the session is not disturbed" is not owed for it. Such names go out from the foreign
+					// address, where the address check must turn them away.
 					from = clientAddr
 				}
 				kinds = append(kinds, kind)
